@@ -50,7 +50,14 @@ func decOutcome(rest []byte, err error, fields func() string) string {
 		}
 		return "err" + changed
 	}
-	return fmt.Sprintf("ok %s rest=%s%s", fields(), hexOrDash(rest), changed)
+	// the decoded object is a value of its own: the buffer it was decoded from is overwritten before the object
+	// is looked at (a reader reusing one buffer for the next message does the same)
+	restHex := hexOrDash(rest)
+	for i := range decSrc {
+		decSrc[i] ^= 0xA5
+	}
+	decSrc = nil
+	return fmt.Sprintf("ok %s rest=%s%s", fields(), restHex, changed)
 }
 
 // appendCheck: AppendTo appends -- encoding after other content (a destination that is not empty, with
@@ -99,7 +106,12 @@ func showHeader(h *wt.Header) string {
 	return fmt.Sprintf("%s size=%d maxret=%d", hex.EncodeToString(h.AppendTo(nil)), h.ExpectedFileSize(), int32(h.MaxRetention()))
 }
 
+// decSrc: the private copy of the bytes the current decode reads from (see decOutcome)
+var decSrc []byte
+
 func decodeKind(kind string, src []byte) string {
+	src = append([]byte(nil), src...)
+	decSrc = src
 	switch kind {
 	case "ts":
 		var t wt.Timestamp
